@@ -115,6 +115,29 @@ class Context:
                 "*": operator.mul,
                 "%": operator.mod,
             }
+            if isinstance(a, int) and isinstance(b, int):
+                # Integer operators behave as they do at run time:
+                # division truncates and the remainder has the sign
+                # of the dividend.
+                ops.update(
+                    {
+                        "/": self._int_div,
+                        "%": lambda x, y: x - y * self._int_div(x, y),
+                        "<<": operator.lshift,
+                        ">>": operator.rshift,
+                        "&": operator.and_,
+                        "|": operator.or_,
+                        "^": operator.xor,
+                    }
+                )
+            if expr.op not in ops:
+                raise SemanticError(
+                    f"Cannot evaluate constant operator {expr.op}", expr.loc
+                )
+            if expr.op in ["/", "%"] and b == 0:
+                raise SemanticError("Constant division by zero", expr.loc)
+            if expr.op in ["<<", ">>"] and b < 0:
+                raise SemanticError("Negative constant shift", expr.loc)
             return ops[expr.op](a, b)
         elif isinstance(expr, ast.TypeCast):
             a = self.eval_const(expr.a)
@@ -139,6 +162,12 @@ class Context:
                 raise SemanticError(f"Cannot evaluate {expr}", None)
         else:
             raise SemanticError(f"Cannot evaluate constant {expr}", None)
+
+    @staticmethod
+    def _int_div(a, b):
+        """Integer division which truncates towards zero"""
+        q = abs(a) // abs(b)
+        return q if (a < 0) == (b < 0) else -q
 
     def pack_string(self, txt):
         """Pack a string an int as length followed by text data"""
